@@ -14,7 +14,7 @@ out="$V/target/try/$name"; rm -rf "$out"; mkdir -p "$out"
 if ! git -C /repo apply "$patch"; then echo "APPLY-FAIL $patch"; exit 2; fi
 caught=""
 for p in $ids; do
-  VERIF_OUT="$out" ${TIER_ENV:-} ./check "$p" "${TIER:-quick}" > "$out/$p.log" 2>&1; rc=$?
+  env VERIF_OUT="$out" ${TIER_ENV:-} ./check "$p" "${TIER:-quick}" > "$out/$p.log" 2>&1; rc=$?
   if [ $rc = 1 ]; then
     rp=$(grep -m1 -o 'replay=[^ ]*' "$out/$p.log" | cut -d= -f2)
     ./check --replay "$rp" > "$out/$p.replay.log" 2>&1; rrc=$?
